@@ -28,6 +28,8 @@ def _clues(rng, h, w, k):
 
 def families(tier, rng):
     th = tier == "thorough"
+    # the U-shaped tank (cells of one tank in a row that are not contiguous)
+    yield {"h": 2, "w": 3, "blocks": [[[0, 0], [0, 2], [1, 0], [1, 1], [1, 2]], [[0, 1]]], "rows": [-1, -1], "cols": [-1, -1, -1]}
     for (h, w) in [(1, 1), (1, 2), (2, 1), (1, 3), (3, 1), (2, 2), (2, 3), (3, 2)]:
         parts = list(L.region_partitions(h, w))
         if h * w <= 2:
